@@ -16,7 +16,7 @@ func VerifC16_Rebalance() {
 	maxL := nd.Param("MAXL", 3)
 	maxW := nd.Param("MAXW", 256)
 	niw := nd.Param("NIW", 2)
-	iw := zzInitialWeights[nd.Choice("iw", niw)]
+	iw := zzInitialWeights[nd.Param("IWBASE", 0)+nd.Choice("iw", niw)]
 	cl := make([]*WeightCluster, n)
 	W := make([]int, n)
 	L := make([]int, n)
